@@ -101,9 +101,10 @@ const (
 	PolicyError
 	PolicySilent // never answers
 	PolicySlow   // answers after SlowBy
+	PolicyDeaf   // has stopped reading: the pool's requests to it block in the write
 )
 
-func (p HostPolicy) String() string { return [...]string{"ack", "error", "silent", "slow"}[p] }
+func (p HostPolicy) String() string { return [...]string{"ack", "error", "silent", "slow", "deaf"}[p] }
 
 // Instr is one reverse instruction a host received.
 type Instr struct {
@@ -389,6 +390,9 @@ func (w *World) Dial(a *Actor) *Conn {
 	w.mu.Unlock()
 	ae, pe := seams.Pipe(w.S, name, "P/"+name, a.Addr, "192.0.2.1:8080")
 	c := &Conn{Name: name, A: a, AgentEnd: ae, PoolEnd: pe, reqMethods: map[string]string{}}
+	if a.Policy == PolicyDeaf {
+		pe.SetBlockRequests(true)
+	}
 	c.Host = &HostSvc{w: w, a: a, c: c, Slow: 6 * time.Second}
 	asrv := &jsonrpc2.Server{}
 	asrv.RegisterMethod("vipnode_whitelist", c.Host, "Whitelist")
